@@ -783,6 +783,34 @@ pub fn accuracy(args: &[String]) {
             k += 1;
         } } } } }
     }
+    // a first_step that covers the whole interval (or more): the first trial step is the landing step and is rejected at these
+    // tolerances; the shortened retries must not be taken for the landing step — the sample at xend is the solution at xend
+    {
+        let mut k = 0;
+        for method in METHODS { for dir in [1.0, -1.0] { for (span, fs) in [(0.5, 0.5), (0.5, 2.0), (0.3, 0.3)] { for rtol in [1e-6, 1e-8] {
+            let atol = 1e-3 * rtol;
+            let p = RadialLogistic { r: 10.0, w: 3.0, dir };
+            let mut o = Options::builder().method(method).rtol(rtol).atol(atol).build();
+            o.first_step = Some(fs);
+            let (mut why, mut extra) = (String::new(), String::new());
+            match catch_unwind(AssertUnwindSafe(|| solve_ivp(&p, 0.0, dir * span, &[0.1, 0.0], o))) {
+                Ok(Ok(s)) => {
+                    let nacc = s.naccpt.max(1) as f64;
+                    let (te, ye) = (*s.t.last().unwrap(), s.y.last().unwrap().clone());
+                    let ex = p.exact(te);
+                    let size = ex[0].abs().max(ex[1].abs());
+                    let q = (ye[0] - ex[0]).abs().max((ye[1] - ex[1]).abs()) / (10.0 * nacc * (atol + rtol * size));
+                    extra = format!("\"span\":{},\"dir\":{},\"first_step\":{},\"rtol\":{},\"naccpt\":{},\"ratio\":{},", span, dir, fs, jnum(rtol), s.naccpt, jnum(q));
+                    if s.status != Status::Success { why = format!("status {:?}", s.status); }
+                    else if te != dir * span { why = format!("Success but the last sample is at {} (xend = {})", te, dir * span); }
+                    else if !(q <= 0.5) { why = format!("first_step {} on a span of {}, dir {}, rtol {:e}: error at xend is {:.3e} times 10 * naccpt * (atol + rtol |y|) ({} accepted steps)", fs, span, dir, rtol, q, s.naccpt); }
+                }
+                _ => why = "run fails".into(),
+            }
+            row("ac", 230000 + k, "covering-first-step", Kind::Mixed, method, "c01-accuracy", &why, &extra);
+            k += 1;
+        } } } }
+    }
 }
 
 /// x' = r x (1 - x^2 - y^2) - w y, y' = r y (1 - x^2 - y^2) + w x from (0.1, 0): rho = x^2 + y^2 obeys rho' = 2 r rho (1 - rho),
@@ -890,6 +918,41 @@ pub fn stiff(args: &[String]) {
             if mx > 3 * mn + 60 { why = format!("step counts grow with the stiffness ratio: {:?} for 1e2..1e10", steps); key = "c14-steps"; }
         }
         r14(case, "prothero-robinson", method, key, &why, &format!("\"n\":{},\"user_jac\":{},\"rtol\":{},\"x0\":{},\"back\":{},\"steps\":{:?},", n, user_jac, jnum(rtol), x0, back, steps));
+    }
+    // tight tolerance (steps far below 1, so that h/alpha < 1 and a relative test on it is an absolute one): the cost must not
+    // grow with the stiffness ratio — neither the attempts nor the share of them that is thrown away
+    {
+        let mut k = 0;
+        for method in [Method::RADAU, Method::BDF] { for n in [1usize, 8] { for user_jac in [true, false] {
+            let (rtol, atol) = (1e-9, 1e-12);
+            let mut counts: Vec<(usize, usize)> = vec![];
+            let (mut why, mut key) = (String::new(), "");
+            for ex in [2.0, 4.0, 6.0, 8.0, 10.0] {
+                let lam: Vec<f64> = (0..n).map(|i| if n == 1 { 10f64.powf(ex) } else { 10f64.powf(ex * (1.0 - 0.8 * i as f64 / (n - 1) as f64)) }).collect();
+                let p = PR { lam, sign: 1.0, user_jac, big: 0.0 };
+                // off the slow manifold: the fast transient has to be resolved first, the steps then grow by many orders of magnitude
+                let y0: Vec<f64> = (0..n).map(|i| (i as f64).cos() + 1.0 + if i % 2 == 0 { 1.0 } else { 0.0 }).collect();
+                let mut o = Options::builder().method(method).rtol(rtol).atol(atol).build();
+                o.max_steps = Some(50_000);
+                match catch_unwind(AssertUnwindSafe(|| solve_ivp(&p, 0.0, 10.0, &y0, o))) {
+                    Ok(Ok(s)) => {
+                        counts.push((s.nstep, s.nrejct));
+                        if s.status != Status::Success && why.is_empty() { why = format!("stiffness 1e{}: status {:?} after {} steps", ex, s.status, s.nstep); key = "c14-status"; }
+                    }
+                    _ => { if why.is_empty() { why = format!("stiffness 1e{}: run fails", ex); key = "c14-status"; } counts.push((0, 0)); }
+                }
+            }
+            if why.is_empty() {
+                // growth only, measured against the least stiff member (fewer steps at a higher ratio are no complaint; resolving
+                // the transients of more widely spread rates costs a few steps per decade)
+                let (mn, mx) = (counts[0].0, counts.iter().map(|c| c.0).max().unwrap());
+                let (rn, rx) = (counts[0].1, counts.iter().map(|c| c.1).max().unwrap());
+                if mx > 3 * mn + 60 { why = format!("step counts grow with the stiffness ratio: (attempts, rejected) = {:?} for 1e2..1e10", counts); key = "c14-steps"; }
+                else if rx > 3 * rn + 60 { why = format!("rejected attempts grow with the stiffness ratio: (attempts, rejected) = {:?} for 1e2..1e10", counts); key = "c14-steps"; }
+            }
+            r14(300000 + k, "tight-tolerance", method, key, &why, &format!("\"n\":{},\"user_jac\":{},\"rtol\":1e-9,\"counts\":{:?},", n, user_jac, counts));
+            k += 1;
+        } } }
     }
     // the same test equation around a large NEGATIVE slow solution (-1e9 .. -3e9): the finite-difference increment must follow
     // |y_j|, otherwise it is absorbed, the Jacobian column vanishes and the stiff solvers fall back to explicit-size steps
